@@ -13,7 +13,7 @@ RULE = ('lookup/string: texts (ASCII and multi-byte UTF-8) of EVERY byte length 
         'text, none for continuation records, exact text / vnode id / string id, global_strings[id] == text; the '
         'quoted path parameters of the enclosing call equal the looked-up paths in lookup order at the reviewed '
         'positions. Non-trivial: a text of >= 3 records or a window with >= 2 lookups; distinct by (decoder, lengths).')
-ASSUMPTIONS = ['A1: timestamps strictly increase (two records of one thread are never identical)',
+ASSUMPTIONS = ['A1: two records of one thread are never byte-identical (several records may share a timestamp as long as their payloads differ)',
                'chunks of two texts of the same kind are never interleaved on one thread (one kernel loop emits them); '
                'trace-string-domain records sit only between complete strings',
                'paths in the syscall sub-check contain no quote, comma or control character',
@@ -63,8 +63,18 @@ def weave(chunks, seed, tid, density):
     return out
 
 
-def feed(evs):
-    real = EV.realize(evs)
+def feed(evs, same_tick=0):
+    # same_tick = g: consecutive groups of g records carry one timestamp (several records within one timebase tick)
+    ts = [1000 + 7 * (i // same_tick) for i in range(len(evs))] if same_tick else None
+    if ts:
+        seen = set()
+        for i, e in enumerate(evs):        # A1: two records of one thread are never byte-identical
+            if i and ts[i] < ts[i - 1]:
+                ts[i] = ts[i - 1]
+            while (ts[i], e[0], EV.eid(e[1]) if isinstance(e[1], str) else e[1], e[2], bytes(e[3])) in seen:
+                ts[i] += 1
+            seen.add((ts[i], e[0], EV.eid(e[1]) if isinstance(e[1], str) else e[1], e[2], bytes(e[3])))
+    real = EV.realize(evs, ts_list=ts)
     parser = EV.new_traces_parser()
     traces = list(parser.feed_generator(real))
     return parser, traces
@@ -137,7 +147,7 @@ def prop_syscall(ctx, case):
         evs += EV.lookup_events(tid, 1000 + i, raw)
     evs.append(SC.ev(tid, name, 2, seed, 1))
     evs = weave(evs[:-1], seed, tid, density) + [evs[-1]]
-    parser, traces = guard(feed, evs)
+    parser, traces = guard(feed, evs, case.get('same_tick', 0))
     from pykdebugparser.trace_handlers.fsystem import VfsLookup
     lk = [t for t in traces if isinstance(t, VfsLookup) and t.ktraces[0].tid == tid]
     if [t.path for t in lk] != paths:
@@ -186,11 +196,13 @@ def run(ctx):
     for i, name in enumerate(PATH_NAMES):
         for k in range(0, 8):
             lens = [lens_pool[(i + 3 * j + k) % len(lens_pool)] for j in range(k)]
-            sc.append({'name': name, 'lens': lens, 'seed': base + i * 17 + k, 'density': (i + k) % 3, 'utf8': (i + k) % 4 == 0})
+            sc.append({'name': name, 'lens': lens, 'seed': base + i * 17 + k, 'density': (i + k) % 3, 'utf8': (i + k) % 4 == 0,
+                       'same_tick': [0, 0, 2, 3, 50][(i + 2 * k) % 5]})
     ctx.run_enum('syscall', sc, prop_syscall, exhaustive_label='every path-taking decoder x 0..7 lookups')
     strat = st.fixed_dictionaries({'name': st.sampled_from(PATH_NAMES),
                                    'lens': st.lists(st.one_of(st.sampled_from(lens_pool), st.integers(0, 184)), max_size=7),
-                                   'seed': S.u64, 'density': st.integers(0, 4), 'utf8': st.booleans()})
+                                   'seed': S.u64, 'density': st.integers(0, 4), 'utf8': st.booleans(),
+                                   'same_tick': st.sampled_from([0, 0, 2, 3, 4, 50])})
     ctx.run_given('syscall', strat, prop_syscall, ctx.n(2500, 20000))
     tstrat = st.fixed_dictionaries({'kind': st.sampled_from(['lookup', 'global', 'threadname', 'threadname_prev']),
                                     'n': st.integers(0, 63), 'seed': S.u64, 'density': st.integers(0, 4), 'utf8': st.booleans()})
